@@ -229,10 +229,10 @@ Theorem C06_oracle_sound_partial : forall (A : Type) (ops : app_ops A) (p : para
 Proof. exact c06_claim_oracle_sound. Qed.
 Print Assumptions C06_oracle_sound_partial.
 
-(* ORACLE SOUNDNESS, FULL (Proofs/FdlOracleSound8.v): no rule of C06 - R06_no_claim_after_timeout, R06_no_backoff
+(* ORACLE SOUNDNESS, FULL (Proofs/FdlOracleSound8.v, FdlOracleSoundAll.v): no rule of C06 - R06_no_claim_after_timeout, R06_no_backoff
    (the executable form of theorem C06_backoff) - is reported on a transcript of the model, for ALL input
    histories and applications that hand data telegrams to the PHY (app_sends_data, see Properties/C13.v). *)
-From PB Require Import FdlOracleSound5 FdlOracleSound8.
+From PB Require Import FdlOracleSound5 FdlOracleSoundAll.
 
 Theorem C06_oracle_sound : forall (A : Type) (ops : app_ops A) (p : params),
   apps_total A ops -> builder_valid p -> app_sends_data A ops ->
